@@ -182,12 +182,106 @@ def gen_group(rng, quick):
     af.update(variant="affine", a=a, c=c, P=[[a * p[0] + c] + p[1:] for p in P],
               queries=[dict(q, y=float(a * Fraction(q["y"]) + c)) for q in queries])
     fits.append(af)
+    if n <= 40:
+        base["pres"] = gen_presentations(rng, base)
     # histories: some fits are made on an estimator object that already had another life
     for f in fits:
         if rng.random() < 0.3:
             f["history"] = gen_history(rng)
         f["queries_first"] = rng.random() < 0.3
     return fits
+
+
+# ---------------------------------------------------------------------------- presentations
+SCALE_K = [10, 16, 20, 24, 26, 28, 30, 32]        # clean tree verified silent up to 2^32 (2^34: qhull round-off)
+DTYPES = ["int64", "int32", "float32", "list", "fortran"]
+
+
+def gen_presentations(rng, base):
+    """other presentations of the SAME fit (C19_affine_target_*, C19_position_scale_spec): the target
+    and/or the positions multiplied by a power of two (exact in binary64, so qhull sees exactly
+    scaled input: the selection must be identical, distances scale with the target factor), and
+    the same values handed over in another container / dtype (int64, int32, float32, nested
+    lists, Fortran order) with a NON-integer float64 target: everything must be bit-identical to
+    the float64 presentation."""
+    out = []
+    for _ in range(2):
+        k = rng.choice(SCALE_K) * rng.choice([-1, 1])
+        out.append(dict(kind="scale", mode=rng.choice(["y", "x", "xy"]), k=k))
+    n = base["n"]
+    for _ in range(2):
+        frac = [rng.randrange(1, 2 ** 40) if rng.random() < 0.7 else rng.randrange(1, 8) * 2 ** 37
+                for _ in range(n)]                       # y_i + frac_i / 2^40, exact in binary64
+        out.append(dict(kind="dtype", dtype=rng.choice(DTYPES), frac=frac,
+                        qshift=rng.randrange(1, 2 ** 20) / 2.0 ** 20))
+    return out
+
+
+def _fit_raw(base, Xp, yp, tol, Xq, yq, sfm=False):
+    from skmatter.sample_selection import DirectionalConvexHull
+    kw = {} if tol is None else dict(tolerance=tol)
+    m = DirectionalConvexHull(low_dim_idx=list(base["low"]), **kw).fit(Xp, yp)
+    out = dict(sel=[int(i) for i in m.selected_idx_],
+               dist=np.asarray(m.score_samples(Xp, yp), dtype=float),
+               qdist=np.asarray(m.score_samples(Xq, yq), dtype=float) if len(yq) else np.zeros(0))
+    if sfm:
+        out["sfm"] = np.asarray(m.score_feature_matrix(Xp), dtype=float)
+    return out
+
+
+def check_presentation(base, rec0, pr):
+    """returns a message if the presentation `pr` of the base fit breaks C19, else None."""
+    X, y, qrows = case_arrays(base)
+    Xa, ya = np.array(X, dtype=float), np.array(y, dtype=float)
+    Xq = np.array([r for r, _ in qrows], dtype=float).reshape(len(qrows), base["nfeat"])
+    yq = np.array([yy for _, yy in qrows], dtype=float)
+    tol = rec0["tol"]
+    try:
+        if pr["kind"] == "scale":
+            a = 2.0 ** pr["k"] if pr["mode"] in ("y", "xy") else 1.0
+            sx = 2.0 ** (-pr["k"]) if pr["mode"] == "x" else (2.0 ** pr["k"] if pr["mode"] == "xy" else 1.0)
+            Xs, Xqs = Xa.copy(), Xq.copy()
+            Xs[:, base["low"]] *= sx
+            Xqs[:, base["low"]] *= sx
+            r = _fit_raw(base, Xs, ya * a, tol * a, Xqs, yq * a)
+            what = "target x 2^%d, positions x 2^%d" % (round(np.log2(a)), round(np.log2(sx)))
+            if r["sel"] != rec0["sel"]:
+                return "%s changed the selection %s -> %s" % (what, rec0["sel"], r["sel"])
+            scale = max(1.0, float(np.max(np.abs(np.array(base["P"], dtype=float)))))
+            # observed on the unchanged tree: <= 1e-13 x a x scale for |k| <= 32
+            for d0, d1 in zip(rec0["dist"], r["dist"]):
+                if not abs(d1 - a * d0) <= RTOL * abs(a * d0) + 1e-9 * a * scale:
+                    return "%s: training distance %g, expected %g x %g" % (what, d1, a, d0)
+            for d0, d1 in zip(rec0["qdist"], r["qdist"]):
+                if d0 >= -tol and d1 >= -tol * a and not abs(d1 - a * d0) <= RTOL * abs(a * d0) + 1e-9 * a * scale:
+                    return "%s: query distance %g, expected %g x %g" % (what, d1, a, d0)
+            return None
+        yf = ya + np.array(pr["frac"], dtype=float) / 2.0 ** 40
+        yqf = yq + pr["qshift"]
+        ref = _fit_raw(base, Xa, yf, base["tol"], Xq, yqf, sfm=True)
+        dt = pr["dtype"]
+        if dt in ("int64", "int32"):
+            Xp, Xqp = Xa.astype(dt), Xq                   # query positions are dyadic, not integers
+        elif dt == "float32":
+            Xp, Xqp = Xa.astype(np.float32), Xq.astype(np.float32)
+            if not (np.array_equal(Xp.astype(float), Xa) and np.array_equal(Xqp.astype(float), Xq)):
+                return None
+        elif dt == "list":
+            Xp, Xqp = Xa.tolist(), Xq.tolist()
+        else:
+            Xp, Xqp = np.asfortranarray(Xa), np.asfortranarray(Xq)
+        r = _fit_raw(base, Xp, yf if dt != "list" else yf.tolist(), base["tol"], Xqp,
+                     yqf if dt != "list" else yqf.tolist(), sfm=True)
+        if r["sel"] != ref["sel"]:
+            return "X given as %s (non-integer float64 target): selection %s, float64 X gives %s" % (dt, r["sel"], ref["sel"])
+        for nm in ("dist", "qdist", "sfm"):
+            if not np.array_equal(r[nm], ref[nm], equal_nan=True):
+                j = int(np.argmax(np.abs(np.nan_to_num(r[nm] - ref[nm])).reshape(-1)))
+                return ("X given as %s (non-integer float64 target): %s differs from the float64 presentation "
+                        "(entry %d: %r vs %r)" % (dt, nm, j, float(r[nm].reshape(-1)[j]), float(ref[nm].reshape(-1)[j])))
+        return None
+    except Exception as e:  # noqa
+        return "presentation %s raised %s: %s" % ({k: v for k, v in pr.items() if k != "frac"}, type(e).__name__, str(e)[:200])
 
 
 def witness_group():
@@ -432,7 +526,7 @@ def run(ctx):
     shards, shard_groups, cur, cur_sz = [], [], [], 0
     texts, infos = {}, {}
     for i in idx:
-        texts[i], infos[i] = case_coq(fits[i], recs[i], with_found=(i < 45))
+        texts[i], infos[i] = case_coq(fits[i], recs[i], with_found=(i < 12))
         stats["spec_checked"] += infos[i]["spec"]
         stats["chain_checked"] += infos[i]["chain"]
         stats["distance_points"] += infos[i]["npts"]
@@ -513,7 +607,7 @@ def run(ctx):
     stats["fits_with_shared_positions_1d_decision"] = sum(1 for i in idx if infos[i]["has_stack"] and fits[i]["d"] == 1)
     stats["above_inserted_not_last"] = sum(1 for c in fits if c["variant"] == "above" and c.get("new_idx")
                                            and c["new_idx"][0] < c["n"] - len(c["new_idx"]))
-    stats["fits_with_mask_as_found_evaluated"] = sum(1 for i in idx if i < 45)
+    stats["fits_with_mask_as_found_evaluated"] = sum(1 for i in idx if i < 12)
     stats["mask_as_found_disagrees_on_fits"] = len(found_failed)
     stats["mask_repaired_disagrees_on_fits"] = sum(1 for v in failed.values() if any(w.startswith("(D)") for w in v))
     stats["distance_points_disagreeing"] = sum(sum(1 for w in v if w.startswith("(D) point")) for v in failed.values())
@@ -544,6 +638,21 @@ def run(ctx):
         if msg:
             C.report_violation(ctx, "C19 fails on the implementation: " + msg,
                                dict(case=fits[s0], group=fits[s0:s0 + k]), key=key, found_input=True)
+    npres, pres_fail = {}, 0
+    for (s0, k) in groups:
+        b, rb = fits[s0], recs[s0]
+        if "error" in rb or not b.get("pres"):
+            continue
+        for pr in b["pres"]:
+            kk = pr["kind"] + ":" + (pr["mode"] if pr["kind"] == "scale" else pr["dtype"])
+            npres[kk] = npres.get(kk, 0) + 1
+            msg = check_presentation(b, rb, pr)
+            if msg:
+                pres_fail += 1
+                if pres_fail <= 6:
+                    C.report_violation(ctx, "C19 fails on the implementation: " + msg,
+                                       dict(case=dict(b, pres=[pr]), presentation=True), found_input=True)
+    stats["presentations"] = dict(checked=npres, failing=pres_fail, scale_exponents=SCALE_K)
     for txt in corr_broken:
         C.report_violation(ctx, "correspondence shard did not evaluate", dict(coq_output=txt), found_input=False)
     if not po["ok"]:
@@ -592,6 +701,11 @@ def replay(ctx, obj):
         print("replay: life outcome codes", got, "model", want)
         return 1 if got != want else 0
     r = run_impl(c)
+    if obj.get("presentation"):
+        msgs = [check_presentation(c, r, pr) for pr in c["pres"]] if "error" not in r else ["base fit raised"]
+        msgs = [m for m in msgs if m]
+        print("replay:", msgs[0] if msgs else "property holds on this input now")
+        return 1 if msgs else 0
     msg, key = oracle_fit(c, r)
     if not msg and obj.get("group"):
         fs_ = obj["group"]
